@@ -35,10 +35,11 @@ package orda
 //@ typeinv orderedNode.timedType : *timedNode | *jsonElement | *jsonObject | *jsonArray
 
 // every entry of a mapSnapshot is a *timedNode carrying a valid timestamp
-//@ pred tnode(t timedType) = t.(*timedNode) && validTS(t.(*timedNode).T)
+//@ pred tnode(t timedType) = t.(*timedNode) && allocated(t.(as *timedNode)) && validTS(t.(*timedNode).T)
 //@ pred mapWF(m *mapSnapshot) = m.Map != nil && m.BaseDatatype != nil && (forall k string :: k in m.Map ==> tnode(m.Map[k]))
 //@ pred live(m *mapSnapshot, k string) = k in m.Map && m.Map[k].(*timedNode).V != nil
 //@ pred tsOf(t timedType) = t.(*timedNode).T
+//@ pred tnAs(t timedType) = t.(as *timedNode)
 // no node object is shared by two keys (put only ever links a node that is not in the map yet)
 //@ pred mapInj(m *mapSnapshot) = forall k1 string, k2 string :: k1 in m.Map && k2 in m.Map && k1 != k2 ==> m.Map[k1] != m.Map[k2]
 
@@ -92,6 +93,8 @@ package orda
 //@   ensures[size-delta]  its.Size == old(its.Size) + (live(its, key) ? 1 : 0) - (old(live(its, key)) ? 1 : 0)
 //@   ensures[no-target]   (result2 != nil) == !old(key in its.Map)
 //@   ensures[old-value]   result2 == nil && result0 != nil ==> result1 == old(its.Map[key].(*timedNode).V)
+//@   ensures[changed-iff-newer] (result0 != nil) == (old(key in its.Map) && tsLess(old(tsOf(its.Map[key])), ts))
+//@   ensures[nothing-returned-otherwise] result0 == nil ==> result1 == nil
 //@   modifies mapSnapshot.Size @ its, timedNode.V @ its.Map[key].(as *timedNode), timedNode.T @ its.Map[key].(as *timedNode), mapSnapshot.$live @ its
 
 //@ func (*mapSnapshot).removeLocalWithTimedType
@@ -124,6 +127,50 @@ package orda
 //@   requires mapSized(its)
 //@   ensures result == its.$live
 //@   modifies nothing
+
+// The three entry points the operations reach the snapshot through (wrappers of the functions above);
+// their postconditions restate the conflict rule at the level of (key, value, write time).
+//@ func (*mapSnapshot).putCommon
+//@   mode math nooverflow Size counts entries of an in-memory map
+//@   props C02 C03 C01
+//@   dispatch timedType : *timedNode
+//@   requires mapWF(its) && mapSized(its) && validTS(ts) && value != nil
+//@   ensures[wf]          mapWF(its) && mapSized(its)
+//@   ensures[present]     key in its.Map
+//@   ensures[lww-winner]  (tnAs(its.Map[key]).V == value && tnAs(its.Map[key]).T == ts && fresh(tnAs(its.Map[key]))) == (!old(key in its.Map) || tsLess(old(tsOf(its.Map[key])), ts))
+//@   ensures[lww-keep]    old(key in its.Map) && !tsLess(old(tsOf(its.Map[key])), ts) ==> its.Map[key] == old(its.Map[key])
+//@   ensures[other-keys]  forall k string :: k != key ==> (k in its.Map) == old(k in its.Map) && its.Map[k] == old(its.Map[k])
+//@   ensures[nodes-untouched] forall t *timedNode :: old(allocated(t)) ==> t.V == old(t.V) && t.T == old(t.T)
+//@   ensures[size-delta]  its.Size == old(its.Size) + (live(its, key) ? 1 : 0) - (old(live(its, key)) ? 1 : 0)
+//@   ensures[nodes-not-shared] old(mapInj(its)) ==> mapInj(its)
+//@   ensures[returns-previous] result1 == nil && result0 == (old(key in its.Map) ? (tsLess(old(tsOf(its.Map[key])), ts) ? old(tnAs(its.Map[key]).V) : value) : nil)
+//@   modifies mapSnapshot.Size @ its, map[string]timedType @ its.Map, mapSnapshot.$live @ its, timedNode.V, timedNode.T, alloc
+
+//@ func (*mapSnapshot).removeRemote
+//@   mode math nooverflow Size counts entries of an in-memory map
+//@   props C02 C03 C01
+//@   dispatch timedType : *timedNode
+//@   requires mapWF(its) && validTS(ts) && mapSized(its)
+//@   ensures[wf]          mapWF(its) && mapSized(its)
+//@   ensures[domain]      forall k string :: (k in its.Map) == old(k in its.Map) && its.Map[k] == old(its.Map[k])
+//@   ensures[lww-remove]  old(key in its.Map) && tsLess(old(tsOf(its.Map[key])), ts) ==> tnAs(its.Map[key]).V == nil && tnAs(its.Map[key]).T == ts
+//@   ensures[lww-keep]    old(key in its.Map) && !tsLess(old(tsOf(its.Map[key])), ts) ==> tnAs(its.Map[key]).V == old(tnAs(its.Map[key]).V) && tnAs(its.Map[key]).T == old(tnAs(its.Map[key]).T)
+//@   ensures[size-delta]  its.Size == old(its.Size) + (live(its, key) ? 1 : 0) - (old(live(its, key)) ? 1 : 0)
+//@   ensures[no-target]   (result1 != nil) == !old(key in its.Map)
+//@   ensures[old-value]   result0 == (old(key in its.Map) && tsLess(old(tsOf(its.Map[key])), ts) ? old(tnAs(its.Map[key]).V) : nil)
+//@   modifies mapSnapshot.Size @ its, timedNode.V @ its.Map[key].(as *timedNode), timedNode.T @ its.Map[key].(as *timedNode), mapSnapshot.$live @ its
+
+//@ func (*mapSnapshot).removeLocal
+//@   mode math nooverflow Size counts entries of an in-memory map
+//@   props C02 C03
+//@   dispatch timedType : *timedNode
+//@   requires mapWF(its) && validTS(ts) && mapSized(its)
+//@   ensures[wf]          mapWF(its) && mapSized(its)
+//@   ensures[domain]      forall k string :: (k in its.Map) == old(k in its.Map) && its.Map[k] == old(its.Map[k])
+//@   ensures[removes-live] (result1 == nil) == (old(live(its, key)) && tsLess(old(tsOf(its.Map[key])), ts))
+//@   ensures[tombstoned]  result1 == nil ==> !live(its, key) && tnAs(its.Map[key]).T == ts && result0 == old(tnAs(its.Map[key]).V) && its.Size == old(its.Size) - 1
+//@   ensures[error-changes-nothing] result1 != nil ==> (forall t *timedNode :: t.V == old(t.V) && t.T == old(t.T)) && its.Size == old(its.Size)
+//@   modifies mapSnapshot.Size @ its, timedNode.V @ its.Map[key].(as *timedNode), timedNode.T @ its.Map[key].(as *timedNode), mapSnapshot.$live @ its
 
 // ---------------------------------------------------------------------------------------
 // List (RGA with tombstones). Scope of these contracts: the List datatype, whose ordered nodes
@@ -318,7 +365,6 @@ package orda
 // its times share Era/Lamport/CUID and differ only in the delimiter, which the order ignores). Each new
 // element goes after the anchor and after exactly the run of successors whose ORDER time is newer than the
 // operation ("newest first" among concurrent siblings); the batch stays in order; nothing else moves.
-//@ pred tnAs(t timedType) = t.(as *timedNode)
 //@ pred newAt(L *listSnapshot, tts []timedType, j int) = on(L.Map[ttKey(tts[j])])
 //@ pred isNew(L *listSnapshot, n *orderedNode) = inList(L, n) && !old(inList(L, n))
 //@ func (*listSnapshot).insertRemoteWithTimedTypes
@@ -354,3 +400,55 @@ package orda
 //@   ensures[stops-at-older]  result == nil ==> forall n *orderedNode :: {n.$list} inList(its, n) && !old(inList(its, n)) ==> n.next == nil || (inList(its, on(n.next)) && !old(inList(its, on(n.next)))) || !tsLess(tnAs(tts[0]).T, on(n.next).O)
 //@   ensures[not-found-changes-nothing] result != nil ==> its.size == old(its.size) && (forall n *orderedNode :: {n.$list} n.$list == old(n.$list) && n.next == old(n.next))
 //@   modifies listSnapshot.size, map[string]orderedType, orderedNode.next, orderedNode.prev, orderedNode.$list, orderedNode.$pos, orderedNode.$key, alloc
+
+// ---------------------------------------------------------------------------------------
+// List API: argument validation (C03: "invalid arguments return an error, never panic").
+// The accepted ranges are stated mathematically and checked in 64-bit arithmetic, so an
+// overflowing pos+numOfNodes cannot hide.
+// ---------------------------------------------------------------------------------------
+//@ func (*listSnapshot).validateGetRange
+//@   mode bv
+//@   props C03
+//@   requires its.size >= 0 && its.BaseDatatype != nil
+//@   replay-input size = its.size
+//@   replay-bound its.size <= 8
+//@   ensures[accepts-exactly-the-valid-ranges] (result == nil) == (pos >= 0 && numOfNodes >= 1 && pos < its.size && numOfNodes <= its.size - pos)
+//@   modifies nothing
+
+//@ func (*listSnapshot).validateInsertPosition
+//@   mode bv
+//@   props C03
+//@   requires its.size >= 0 && its.BaseDatatype != nil
+//@   ensures[accepts-exactly-the-valid-positions] (result == nil) == (pos >= 0 && pos <= its.size)
+//@   modifies nothing
+
+//@ func (*listSnapshot).validateGetPosition
+//@   mode bv
+//@   props C03
+//@   requires its.size >= 0 && its.BaseDatatype != nil
+//@   ensures[accepts-exactly-the-valid-positions] (result == nil) == (pos >= 0 && pos < its.size)
+//@   modifies nothing
+
+// The List object as the API methods see it: all embedded parts present, the snapshot is a
+// *listSnapshot, the transaction layer is well-formed, and the call is either outside any
+// transaction or inside the caller's own one (the API is single-threaded here: C20 is not decided).
+//@ pred listAPI(l *list) = l.datatype != nil && l.SnapshotDatatype != nil && l.datatype.WiredDatatype != nil && l.datatype.WiredDatatype.TransactionDatatype != nil && datatypes.txWF(l.datatype.WiredDatatype.TransactionDatatype) && l.SnapshotDatatype.Snapshot != nil && l.SnapshotDatatype.Snapshot.(*listSnapshot) && l.SnapshotDatatype.Snapshot.(as *listSnapshot).size >= 0 && l.SnapshotDatatype.Snapshot.(as *listSnapshot).BaseDatatype != nil && (l.datatype.TxCtx != nil ==> allocated(l.datatype.TxCtx)) && datatypes.rollbackSound()
+//@ pred listTxOK(l *list) = (!(l.datatype.WiredDatatype.TransactionDatatype.isLocked && l.datatype.WiredDatatype.TransactionDatatype.txCtx == l.datatype.TxCtx) ==> !l.datatype.WiredDatatype.TransactionDatatype.isLocked) && (l.datatype.WiredDatatype.TransactionDatatype.isLocked && l.datatype.WiredDatatype.TransactionDatatype.txCtx == l.datatype.TxCtx ==> datatypes.opsIDed(l.datatype.WiredDatatype.TransactionDatatype.txCtx.opBuffer))
+
+// DeleteMany: an invalid range or a refused operation returns an error AND NO VALUES
+//@ func (*list).DeleteMany
+//@   mode math
+//@   props C03
+//@   requires listAPI(its) && listTxOK(its)
+//@   ensures[error-returns-no-values] result1 != nil ==> len(result0) == 0
+//@   ensures[invalid-range-is-refused] !(pos >= 0 && numOfNode >= 1 && pos < old(its.SnapshotDatatype.Snapshot.(as *listSnapshot).size) && numOfNode <= old(its.SnapshotDatatype.Snapshot.(as *listSnapshot).size) - pos) ==> result1 != nil
+//@   modifies *
+
+// Delete(pos) for ANY pos: an error for an invalid position, never a panic
+//@ func (*list).Delete
+//@   mode math
+//@   props C03
+//@   requires listAPI(its) && listTxOK(its)
+//@   replay-input size = its.SnapshotDatatype.Snapshot.(as *listSnapshot).size
+//@   ensures[invalid-position-is-an-error] !(pos >= 0 && pos < old(its.SnapshotDatatype.Snapshot.(as *listSnapshot).size)) ==> result1 != nil
+//@   modifies *
